@@ -201,7 +201,7 @@ func (fd *Client) UpdateTable(input *dynamodb.UpdateTableInput) (*dynamodb.Updat
 	}
 
 	if input.AttributeDefinitions != nil {
-		table.SetAttributeDefinition(mapAttributeValueDefinitionToDynamodb(input.AttributeDefinitions))
+		table.AddAttributeDefinition(mapAttributeValueDefinitionToDynamodb(input.AttributeDefinitions))
 	}
 
 	for _, change := range input.GlobalSecondaryIndexUpdates {
